@@ -20,6 +20,7 @@ impl Default for C03 {
     fn default() -> Self {
         let mut cov = Cov::default();
         cov.declare(&[
+            "liquidation_seizure_leg_judged",
             "withdraw_all_fractional_value",
             "repay_all_fractional_value",
             "amount_one",
@@ -86,6 +87,27 @@ impl Monitor for C03 {
         for (i, ix) in s.tx.ixs.iter().enumerate() {
             if ix.program_id != crate::rt::marginfi_id() {
                 continue;
+            }
+            if ix.tag == "liquidate" && ix.accounts.len() > 5 && ix.data.len() >= 16 {
+                // the liquidator's side of the seizure is an increase of its position in the
+                // seized bank (a deposit in kind): it is credited - as new assets and as debt
+                // taken off - at most the amount seized
+                let (a, b) = (states[i], states[i + 1]);
+                let (abk, liq_acc) = (ix.accounts[1].pubkey, ix.accounts[3].pubkey);
+                if let Some(bank1) = model::bank_of(b, &abk) {
+                    let seized = qu(u64::from_le_bytes(ix.data[8..16].try_into().unwrap()));
+                    let (sa0, sl0) = shares(a, &liq_acc, &abk);
+                    let (sa1, sl1) = shares(b, &liq_acc, &abk);
+                    let (asv, lsv) = (q_w(bank1.asset_share_value), q_w(bank1.liability_share_value));
+                    // both states valued at the share values after the accrual the instruction ran
+                    let gained = (&sa1 - &sa0) * &asv + (&sl0 - &sl1) * &lsv;
+                    self.cov.probe("liquidation_seizure_leg_judged");
+                    self.cov.eval(format!("liquidate|debt_in_seized_bank{}", (sl0 >= qi(1)) as u8));
+                    if gained > &seized + (model::q_max(asv, lsv) + qi(1)) * &u * qi(8) {
+                        out.push(viol("C03", "seizure_credited_more_than_seized", ix.tag,
+                            format!("bank {abk}: liquidator credited {} for {} seized", q_str(&gained), q_str(&seized)), idx));
+                    }
+                }
             }
             if !matches!(ix.tag, "deposit" | "withdraw" | "borrow" | "repay" | "close_balance") {
                 only_user_ops = false;
